@@ -90,6 +90,7 @@ fn account(st: &mut Stats, w: &World, e: &Exec, c19_set: &mut HashSet<u64>, c09_
     st.add("ops.clone", cs.clone_ops);
     st.add("ops.nested_replace", cs.nested);
     st.add("ops.compile", cs.compile_ops);
+    st.add("ops.burst", cs.bursts);
     st.add("ops.next", cs.nexts);
     st.add("ops.matches", cs.matches);
     st.add("compile_errors", e.compile_errs);
